@@ -15,6 +15,7 @@ import Ach.Model.FlattenDriver
 import Ach.Model.SegmentDriver
 import Ach.Model.ReversalDriver
 import Ach.Model.FileCreateDriver
+import Ach.Model.JsonDriver
 /-!
 `achmodel`: the executable model behind the correspondence check.  Reads one
 operation per line on stdin, writes one result line per operation.
@@ -96,6 +97,7 @@ def step (cx : Ctx) (line : String) : String :=
   | "segmentiat" :: args => Ach.SegmentDriver.runIat args
   | "reversal" :: args => Ach.ReversalDriver.run args
   | "filecreate" :: args => Ach.FileCreate.runLine args
+  | "json" :: args => Ach.JsonDriver.run args
   | ["mask", "number", h] =>
     match hexToStr h with
     | some s => bytesToHex (ByteArray.mk (maskNumber s).toArray)
